@@ -25,7 +25,7 @@ RULE += ('; also: coroutine and callable-object callbacks outliving their step, 
 ASSUMPTIONS = ['samples in ProcessListener callbacks are not part of the statement (recorded only)',
                'nested execution relies on nest_asyncio as configured by plumpy.set_event_loop_policy()']
 REQUIRED = ['samples/step', 'samples/hook', 'samples/callback', 'samples/outside', 'concurrent_runs', 'nested_runs', 'children', 'where/after-await',
-            'where/after-launch', 'where/after-nested', 'where/after-inline', 'outside_runner', 'parent_controlled_by_child', 'cleanup_callbacks', 'bound_method_callbacks', 'where/after-collect', 'own_waiting_state_samples', 'falsy_processes']
+            'where/after-launch', 'where/after-nested', 'where/after-inline', 'outside_runner', 'parent_controlled_by_child', 'cleanup_callbacks', 'bound_method_callbacks', 'where/after-collect', 'own_waiting_state_samples', 'falsy_processes', 'where/after-collect-own']
 BOUNDS = {'quick': '150 random concurrent sets + 24 nested scenarios', 'thorough': '1500 random concurrent sets + 200 nested scenarios'}
 TIMEOUT = {'quick': 900, 'thorough': 3600}
 
@@ -51,7 +51,7 @@ def _rand_script(rng, depth, allow_nested, name_hint=''):
             elif r < 0.79:
                 ops.append(['close_fresh'])
             elif r < 0.8 and not allow_nested:
-                ops.append(['orphan'])
+                ops.append(['orphan'] if rng.random() < 0.5 else ['leak_cb'])
             elif r < 0.92 and depth > 0:
                 if allow_nested and rng.random() < 0.7:
                     ops.append(['nested', _rand_script(rng, depth - 1, allow_nested)])
